@@ -16,6 +16,8 @@ Tokens: bytes `x<hex>`; digest `x<hex of the hash string>/<size>`; raw digest `-
   `openw|opentrunc|setsize|alloc|write c..`, `read <off> <len> c..`,
   `remove|create|mkdir c..`, `digests c..` (`ApplyGetContainingDigests` on the node), `fetch <dig>` (one `FetchContents` call, no tree; how many leaves existed when a
   defect was found is not compared, only that all of them were unlinked)
+* `hinit <maxFiles> <maxSize>`, `hget <key> <size> <casHas>` (→ `ok|err [cache directory]`),
+  `hrm <key>`, `hmkdir <key>`: the hard-linking file fetcher
 * `cinit <maxCount> <maxSize>`, `cget <0 dir|1 root|2 child> <t> <c> <base|-> <size>`
 -/
 namespace BbRe.Drivers.InputRoot
@@ -162,10 +164,18 @@ def showOut : Out → String
 structure DS where
   st : State
   cache : Cache.State
+  hl : HardLink.State
 
 def emptyCAS (hl : Nat) : CAS := ⟨hl, [], []⟩
 
-def initDS : DS := ⟨init (emptyCAS 64), ⟨1, 1, []⟩⟩
+def initDS : DS := ⟨init (emptyCAS 64), ⟨1, 1, []⟩, ⟨1, 1, [], []⟩⟩
+
+def insertNat (e : Nat × String) : List (Nat × String) → List (Nat × String)
+  | [] => [e]
+  | f :: rest => if e.1 < f.1 then e :: f :: rest else f :: insertNat e rest
+
+def showDisk (d : List (Nat × HardLink.Entry)) : String :=
+  ",".intercalate (((d.map fun e => (e.1, match e.2 with | .file c => s!"{e.1}:f{c}" | .dir => s!"{e.1}:d")).foldr insertNat []).map (·.2))
 
 def splitLast : List Name → Option (Path × Name)
   | [] => none
@@ -249,6 +259,27 @@ def step (s : DS) (ws : List String) : DS × String :=
     | some d, some b =>
       ({ s with st := { s.st with cas := { s.st.cas with blobs := s.st.cas.blobs ++ [(d, b)] } } }, "ok")
     | _, _ => (s, "bad-op")
+  | ["hinit", a, b] =>
+    match a.toNat?, b.toNat? with
+    | some a, some b => ({ s with hl := ⟨a, b, [], []⟩ }, "ok")
+    | _, _ => (s, "bad-op")
+  | ["hget", k, size, cas] =>
+    match k.toNat?, size.toNat?, parseBool cas with
+    | some k, some size, some cas =>
+      let r := HardLink.getFile s.hl k size cas
+      ({ s with hl := r.1 }, (match r.2 with
+        | .ok c => if c = k then "ok" else s!"ok-with-contents-of-{c}"
+        | .okMissing => "ok-but-missing"
+        | .error => "err") ++ " [" ++ showDisk r.1.disk ++ "]")
+    | _, _, _ => (s, "bad-op")
+  | ["hrm", k] =>
+    match k.toNat? with
+    | some k => ({ s with hl := HardLink.fault s.hl (.remove k) }, "ok")
+    | none => (s, "bad-op")
+  | ["hmkdir", k] =>
+    match k.toNat? with
+    | some k => ({ s with hl := HardLink.fault s.hl (.mkdir k) }, "ok")
+    | none => (s, "bad-op")
   | ["cinit", a, b] =>
     match a.toNat?, b.toNat? with
     | some a, some b => ({ s with cache := ⟨a, b, []⟩ }, "ok")
